@@ -885,7 +885,7 @@ func rulePooledLexerReset(r *Report, rule string) {
 			case *ast.AssignStmt:
 				for _, l := range x.Lhs {
 					if fs, ok := asFieldSel(info, l); ok && fs.Owner == "queryStringLex" && objOf(info, fs.Sel.X) == recv {
-						reset[fs.Field.Name()] = true
+						reset[canonFieldName(fs.Field)] = true
 					}
 				}
 			case *ast.CallExpr:
@@ -895,7 +895,7 @@ func rulePooledLexerReset(r *Report, rule string) {
 				}
 				// l.in.Reset(...)
 				if fs, ok := asFieldSel(info, sel.X); ok && fs.Owner == "queryStringLex" && objOf(info, fs.Sel.X) == recv && sel.Sel.Name == "Reset" {
-					reset[fs.Field.Name()] = true
+					reset[canonFieldName(fs.Field)] = true
 				}
 				// l.reset(): one level into methods of the lexer
 				if objOf(info, sel.X) == recv && depth == 0 {
